@@ -1,7 +1,7 @@
 (* Properties.v — the property theorems, and nothing else.  Each is closed by [exact] of a lemma
    proved in the Proofs* files and followed by Print Assumptions. *)
 From Coq Require Import Permutation.
-From Godi Require Import Base GDfs GKahn GKahnComplete GraphSpec Conc Web Model Check ProofsGraph ProofsConc ProofsWeb ProofsRegistry ProofsRuntime ProofsClosed ProofsTerm ProofsWf ProofsSingle ProofsOutputs ProofsFresh ProofsGen ProofsFrame ProofsFrozen ProofsOnce ProofsConserve ProofsOnceWorld ProofsCloses ProofsOrder ProofsStable ProofsCalls ProofsAccepted ProofsCascade ProofsErrIff.
+From Godi Require Import Base GDfs GKahn GKahnComplete GraphSpec Conc Web Model Check ProofsGraph ProofsConc ProofsWeb ProofsRegistry ProofsRuntime ProofsClosed ProofsTerm ProofsWf ProofsSingle ProofsOutputs ProofsFresh ProofsGen ProofsFrame ProofsFrozen ProofsOnce ProofsConserve ProofsOnceWorld ProofsCloses ProofsOrder ProofsStable ProofsCalls ProofsAccepted ProofsCascade ProofsErrIff ProofsBuildOnce.
 
 (* ---------------------------------------------------------------- C01 *)
 Theorem C01_resolving_a_singleton_is_a_table_read : forall fuel rs h d,
@@ -40,6 +40,21 @@ Theorem C01_singletons_fixed_over_every_history : forall ops w pi,
   pi < length (w_provs w) -> Forall (fun o => not_own_close o pi) ops -> keeps w (fst (run_from w ops)) pi.
 Proof. exact singletons_fixed_over_histories. Qed.
 Print Assumptions C01_singletons_fixed_over_every_history.
+
+(* "constructed exactly once per provider, inside Build": Build runs the constructor of a singleton registration at most
+   once per registration call - for every order the oracle prescribes, whether Build succeeds or fails at any point,
+   whatever the outputs are (all of them nil included) - and no resolution, of anything, in any scope, ever runs one *)
+Theorem C01_build_runs_each_singleton_call_at_most_once : forall c, rids_wf c -> NoDup (map ds_ident c) ->
+  forall invs ord invs' evs res, build c invs ord = (invs', evs, res) ->
+  forall r, singleton_rid c r -> cnt r evs <= length (all_calls c r).
+Proof. exact build_runs_each_singleton_call_at_most_once. Qed.
+Print Assumptions C01_build_runs_each_singleton_call_at_most_once.
+
+Theorem C01_no_resolution_runs_a_singleton_constructor : forall c, rids_wf c ->
+  forall r, singleton_rid c r ->
+  forall fuel rs h d, p_descs (rs_p rs) = c -> In d c -> cnt r (rs_ev (fst (resolve_d fuel rs h d))) = cnt r (rs_ev rs).
+Proof. exact resolution_never_runs_a_singleton_constructor. Qed.
+Print Assumptions C01_no_resolution_runs_a_singleton_constructor.
 
 (* ---------------------------------------------------------------- C02 *)
 Theorem C02_cached_scoped_instance_is_returned : forall fuel rs h d i,
